@@ -893,7 +893,16 @@ pub fn parse_query(iter: &mut Iter<'_>) -> Query {
             };
             let right = match iter.peek().cloned().unwrap() {
                 Token::Eof => Conversion::None,
-                Token::Degree(deg) => Conversion::Degree(deg),
+                Token::Degree(deg) => {
+                    // A temperature scale is only a conversion target on
+                    // its own; `-> degC m` is a (refused) compound unit.
+                    let mut rest = iter.clone();
+                    rest.next();
+                    match rest.peek() {
+                        Some(Token::Eof) => Conversion::Degree(deg),
+                        _ => Conversion::Expr(parse_eq(iter)),
+                    }
+                }
                 Token::Plus | Token::Minus => {
                     let mut old = iter.clone();
                     if let Some(off) = parse_offset(iter) {
